@@ -259,7 +259,17 @@ def _replay(rec):
     return 0
 
 
+def deductive(ctx):
+    """engine D: copyfile_workflow passes EVERY output field through copy_nested_files with the workflow directory as
+    destination (mode hardlink_or_copy) and stores what that call returns"""
+    from contracts import copyfile_workflow as CW
+    from pyvc.verify import verify, summarize
+
+    summarize(ctx, verify(ctx, CW.contract()))
+
+
 def run(ctx):
+    deductive(ctx)
     with T.private_hash_cache():
         _run(ctx)
 
